@@ -3,9 +3,12 @@
   Property theorems only.  Model: Algo/Ring/Model.lean (typed ring, one step per atomic operation on
   `front_` / `back_`, all interleavings of one producer and one consumer running arbitrary client
   programs); invariant and lemmas: Algo/Ring/Inv.lean.  The record-size helpers of WeakRingBuffer<void>
-  are translated from the header on every run (Gen/RingBuffer.lean).
+  are translated from the header on every run (Gen/RingBuffer.lean); Algo/Ring/Void.lean is a
+  SEQUENTIAL model of the void variant's record layout (headers, padding, tail markers, caches) built on
+  these helpers — the interleavings of the void variant are covered by the harness only.
 -/
 import CdsVerif.Algo.Ring.Inv
+import CdsVerif.Algo.Ring.Void
 import CdsVerif.Gen.RingBuffer
 namespace CdsVerif.Props.C12
 open CdsVerif.Machine CdsVerif.Spec CdsVerif.Algo
@@ -194,5 +197,89 @@ theorem C12_real_size (x : BitVec 64) (h : x.toNat < 2^63) :
 
 example : calc_real_size 1 = 16 ∧ calc_real_size 8 = 16 ∧ calc_real_size 9 = 24 := by decide
 example : untail (make_tail 40) = 40 ∧ is_tail (make_tail 40) = true ∧ is_tail 40 = false := by decide
+
+/-! ### `WeakRingBuffer<void>`: record layout (sequential model, capacity a multiple of 8)
+
+`Void.WF s recs` says that the buffer state `s` holds exactly the byte records `recs`, oldest first
+(it contains the hypotheses `8 ∣ capacity`, `0 < capacity < 2^63`); `Void.wf_init` establishes it for the
+empty buffer and every operation preserves it (below). -/
+
+open CdsVerif.Algo.Ring in
+/-- Initial state: the empty buffer of any capacity that is a positive multiple of 8. -/
+theorem C12_void_init (cap : Nat) (h8 : cap % 8 = 0) (hpos : 0 < cap) (hlt : cap < 2 ^ 63) :
+    Void.WF (Void.vinit cap) [] := Void.wf_init cap h8 hpos hlt
+
+open CdsVerif.Algo.Ring in
+/-- `push_back( data, size )` in any well-formed state: it succeeds iff the free space
+    `capacity - (back_ - front_)` is at least the request, where the request is the record's real size
+    (8-byte header + payload rounded up to 8) plus, when the record does not fit before the end of the
+    buffer, the unusable tail.  On success the record becomes the newest element of the contents; on
+    failure the contents are unchanged. -/
+theorem C12_void_push (s : Void.VSt) (recs : List (List Void.Byte)) (data : List Void.Byte)
+    (h : Void.WF s recs) (hlen : data.length < 2 ^ 63) (s' : Void.VSt) (ok : Bool)
+    (hv : Void.vpushData s data = (s', ok)) :
+    (ok = true → Void.WF s' (recs ++ [data]) ∧ Void.need s data.length ≤ s.cap - (s.back - s.front)) ∧
+    (ok = false → Void.WF s' recs ∧ s.cap - (s.back - s.front) < Void.need s data.length) := by
+  obtain ⟨-, -, h1, h2⟩ := Void.vpushData_spec s recs data h hlen s' ok hv
+  exact ⟨h1, fun hf => ⟨(h2 hf).1, (h2 hf).2.2⟩⟩
+
+open CdsVerif.Algo.Ring in
+/-- `front()` / `pop_front()` on non-empty contents: `front()` returns the address `p` of a contiguous
+    area (`p + size ≤ capacity`: never wrapping — a record that did not fit before the end was restarted
+    at offset 0 behind a tail marker, which `front()` skips) together with the exact size of the oldest
+    record, the bytes there are exactly the bytes pushed, and `pop_front()` then removes exactly this
+    record. -/
+theorem C12_void_front_exact (s : Void.VSt) (data : List Void.Byte) (rest : List (List Void.Byte))
+    (h : Void.WF s (data :: rest)) :
+    ∃ s1 p s2, Void.vfront s = (s1, some (p, BitVec.ofNat 64 data.length)) ∧
+      Void.readBytes s1.mem p data.length = data ∧ p + data.length ≤ s1.cap ∧
+      Void.vpop s1 = (s2, true) ∧ Void.WF s2 rest := by
+  obtain ⟨s1, r, hvf, hwf1, -, -, -, hok⟩ := Void.vfront_spec s _ h
+  obtain ⟨p, rfl, hbytes, hfit, hdr⟩ := hok
+  obtain ⟨s2, hpop, hwf2, -⟩ := Void.vpop_record s1 data rest hwf1 hdr
+  exact ⟨s1, p, s2, hvf, hbytes, hfit, hpop, hwf2⟩
+
+open CdsVerif.Algo.Ring in
+/-- `front()` returns nullptr only on an empty buffer (possibly after skipping a published tail marker). -/
+theorem C12_void_front_empty (s : Void.VSt) (h : Void.WF s []) :
+    ∃ s1, Void.vfront s = (s1, none) ∧ Void.WF s1 [] := by
+  obtain ⟨s1, r, hvf, hwf1, -, -, -, hok⟩ := Void.vfront_spec s _ h
+  simp only [Void.FrontOk] at hok
+  subst hok
+  exact ⟨s1, hvf, hwf1⟩
+
+open CdsVerif.Algo.Ring in
+/-- Round trip of one record through a drained buffer at ANY rotation (so including the positions where
+    the record does not fit before the end of the buffer and is wrapped): if the push succeeds, `front()`
+    returns exactly its size and bytes, and `pop_front()` leaves the buffer empty again. -/
+theorem C12_void_record_roundtrip (s : Void.VSt) (data : List Void.Byte) (h : Void.WF s [])
+    (hlen : data.length < 2 ^ 63) (s1 : Void.VSt) (hpush : Void.vpushData s data = (s1, true)) :
+    ∃ s2 p s3, Void.vfront s1 = (s2, some (p, BitVec.ofNat 64 data.length)) ∧
+      Void.readBytes s2.mem p data.length = data ∧ p + data.length ≤ s2.cap ∧
+      Void.vpop s2 = (s3, true) ∧ Void.WF s3 [] := by
+  have := ((C12_void_push s [] data h hlen s1 true hpush).1 rfl).1
+  exact C12_void_front_exact s1 data [] this
+
+open CdsVerif.Algo.Ring in
+/-- Any sequential client program (pushes of arbitrary records, `front()`+`pop_front()` consumptions, in
+    any order) on a fresh buffer: the records consumed, followed by the records still in the buffer, are
+    exactly the records whose push succeeded, in push order, with their exact sizes and bytes. -/
+theorem C12_void_fifo (cap : Nat) (h8 : cap % 8 = 0) (hpos : 0 < cap) (hlt : cap < 2 ^ 63)
+    (ops : List Void.VOp) (hlen : ∀ d, Void.VOp.push d ∈ ops → d.length < 2 ^ 63) :
+    ∃ remaining, Void.WF (Void.vrun (Void.vinit cap) ops).1 remaining ∧
+      (Void.vrun (Void.vinit cap) ops).2.1 = (Void.vrun (Void.vinit cap) ops).2.2 ++ remaining := by
+  obtain ⟨q', hwf, he⟩ := Void.vrun_fifo ops _ [] (Void.wf_init cap h8 hpos hlt) hlen
+  exact ⟨q', hwf, by simpa using he⟩
+
+open CdsVerif.Algo.Ring in
+/-- Non-vacuity, wrap case: capacity 64; a 40-byte record (48 bytes with header) is pushed and consumed,
+    so that `back_ = front_ = 48`; the next record (10 bytes, real size 24) does not fit into the 16
+    remaining bytes: a tail marker is written, the record goes to offset 0, and it is read back exactly
+    (`back_` ends at 48 + 16 + 24 = 88). -/
+example : (fun r : Void.VSt × List (List Void.Byte) × List (List Void.Byte) => (r.1.front, r.1.back, r.2.2))
+    (Void.vrun (Void.vinit 64)
+      [.push (List.replicate 40 1), .consume, .push [1, 2, 3, 4, 5, 6, 7, 8, 9, 10], .consume])
+    = (88, 88, [List.replicate 40 1, [1, 2, 3, 4, 5, 6, 7, 8, 9, 10]]) := by
+  decide +kernel
 
 end CdsVerif.Props.C12
